@@ -86,7 +86,6 @@ def configs(ctx):
         cf.append(["-a", a, "-G", "i", "-t", "d"])
         cf.append(["-a", a, "-G", "a", "-o", "20", "-t", "d"])
         cf.append(["-a", a, "-G", "i", "-r"] if a == "u" else ["-a", a, "-G", "i", "-b"])
-        cf.append(["-a", a, "-G", "a", "-o", "15", "-j", "4"])
         cf.append(["-a", a, "-G", "a", "-o", "12", "-m"])
         cf.append(["-a", a, "-G", "i", "-m"])
     cf.append(["-a", "u", "-G", "a", "-o", "12", "-c"]); cf.append(["-a", "u", "-G", "i", "-c"])
@@ -190,7 +189,8 @@ def run(ctx):
     # --- inputs
     if ctx.replay:
         rp = json.load(open(ctx.replay))
-        co = [({"name": rp.get("case", "replay"), "cls": "replay", "text": rp["text"], "coeffs": None, "degree": 0}, rp["opts"])]
+        # "repeat": N re-runs a timing-dependent case N times (multi-threaded solves are not deterministic)
+        co = [({"name": rp.get("case", "replay"), "cls": rp.get("class", "replay"), "text": rp["text"], "coeffs": None, "degree": 0}, rp["opts"])] * int(rp.get("repeat", 1))
     else:
         nstd, nfam, nfp, per = ctx.pick(50, 400), ctx.pick(90, 600), ctx.pick(10, 40), ctx.pick(5, 6)
         std = [c for c in G.standard_cases(rng, nstd * 2, maxdeg=ctx.pick(12, 24))
@@ -208,13 +208,23 @@ def run(ctx):
         for c in fp_cases(rng, nfp):
             for o in (["-a", "u", "-G", "a", "-o", "100"], ["-a", "s", "-G", "a", "-o", "100"], ["-a", "u", "-G", "i"], ["-a", "s", "-G", "a", "-o", "10"]):
                 co.append((c, o))
+        # DETERMINISM: the library's default thread pool has one thread per core and its concurrent (Gauss-Seidel style)
+        # Aberth sweeps make radii, iteration counts and hence statuses depend on the interleaving; every solve above is
+        # pinned to one thread.  A small explicit multi-thread group (well separated roots, no -m/-c) is judged the same way.
+        co = [(c, o if "-j" in o else o + ["-j", "1"]) for c, o in co]
+        robust = [c for c in std if c["cls"] in ("random-integer", "random-integer-complex", "random-rational", "from-dyadic-roots", "x^n-1", "kac", "degree-1")]
+        for c in robust[:ctx.pick(8, 40)]:
+            for o in (["-a", "s", "-G", "a", "-o", "15", "-j", "4"], ["-a", "u", "-G", "a", "-o", "15", "-j", "4"], ["-a", "s", "-G", "i", "-j", "4"]):
+                co.append((c, o))
         if big:
+            big = [o + ["-j", "1"] for o in big]
             small = [c for c in std + fam if c["degree"] <= 5]
             for o in big:
                 for c in rng.sample(small, 3):
                     co.append((c, o))
     ctx.log("running %d solves" % len(co))
-    recs = e2e.run_records(ctx, binary, co, env, timeout=ctx.pick(40, 600))
+    nworkers = int(json.load(open(ctx.replay)).get("workers", 16)) if ctx.replay else 16
+    recs = e2e.run_records(ctx, binary, co, env, timeout=ctx.pick(40, 600), workers=nworkers)
     ctx.log("solves done")
     # --- evaluation by the extracted model
     stats = collections.Counter(); lines = []; keep = []
@@ -250,7 +260,7 @@ def run(ctx):
     keep = [p[0] for p in pairs_]; outs = [p[1] for p in pairs_]
     ctx.log("model evaluation done: %d runs" % len(keep))
     samples = []; nontrivial = set(); examined = 0; roots_eval = 0; pairs_eval = 0
-    hist_goal = collections.Counter(); hist_status = collections.Counter(); hist_phase = collections.Counter(); hist_digits = collections.Counter()
+    hist_goal = collections.Counter(); hist_status = collections.Counter(); hist_phase = collections.Counter(); hist_digits = collections.Counter(); hist_threads = collections.Counter()
     for rec, ln in zip(keep, outs):
         r, c, opts = rec["res"], rec["case"], rec["opts"]
         t = ln.split()
@@ -267,6 +277,7 @@ def run(ctx):
         hist_goal["goal=%s over_max=%d%s" % (goal, m["over_max"], " exempt" if ("-c" in opts or "-m" in opts) else "")] += 1
         for s in sts: hist_status[S.STATUS[s] if s < len(S.STATUS) else str(s)] += 1
         hist_phase["lastphase=%d alg=%s" % (m["lastphase"], alg)] += 1
+        hist_threads["-j " + opts[opts.index("-j") + 1] if "-j" in opts else "default pool"] += 1
         hist_digits["prec_out<=64" if d <= 64 else "prec_out<=400" if d <= 400 else "prec_out<=1100" if d <= 1100 else "prec_out>1100"] += 1
         if len(sts) >= 2: nontrivial.add((c["name"], tuple(opts)))
         rp = {"case": c["name"], "class": c["cls"], "text": c["text"], "opts": opts, "meta": m, "statuses": sts}
@@ -286,7 +297,8 @@ def run(ctx):
         for i in gf:
             if i in done: continue
             form = (r.poly or {}).get("type", "?").replace("mps_", "").replace("_poly", "").replace("_equation", "")
-            sig = "goal:%s:status=%d:alg=%s:input=%s" % (goal, sts[i], alg, form)
+            mode = "".join(":mode=" + x for x in ("-c", "-m") if x in opts)
+            sig = "goal:%s:status=%d:alg=%s:input=%s%s" % (goal, sts[i], alg, form, mode)
             ctx.violation(sig, "goal %s, no over_max: root %d of %s (%s) is returned with status %s; options %s"
                           % ("approximate" if goal == "a" else "isolate", i, c["name"], c["cls"], S.STATUS[sts[i]] if sts[i] < 8 else sts[i], " ".join(opts)),
                           dict(rp, root=i, clause="goal contract"))
@@ -326,7 +338,7 @@ def run(ctx):
            "rule": "one evaluation = one completed solve judged by the extracted run_ok; distinct by (input, options); non-trivial when at least two roots are returned (disjointness and per-root clauses both have content)",
            "roots_evaluated": roots_eval, "disc_pairs_evaluated": pairs_eval, "solves_started": len(recs),
            "skipped": {k: v for k, v in stats.items()},
-           "goal_histogram": dict(hist_goal), "status_histogram": dict(hist_status), "phase_histogram": dict(hist_phase), "digits_histogram": dict(hist_digits),
+           "goal_histogram": dict(hist_goal), "status_histogram": dict(hist_status), "phase_histogram": dict(hist_phase), "digits_histogram": dict(hist_digits), "threads_histogram": dict(hist_threads),
            "class_histogram": dict(collections.Counter(rec["case"]["cls"] for rec in keep)),
            "status_tables_match_header": tables_ok,
            "oracle_crosscheck_isolated_discs": dict(orc_hist),
@@ -339,5 +351,6 @@ def run(ctx):
     return ctx.finish("translation_validation", cov,
                       ["radii far below the last bit of the centres are first rounded UP (conservative for every clause); a negative verdict is always re-evaluated on the exact values before it is reported",
                        "inputs have simple roots by construction (distinct rational roots) or by an exact gcd test; floating-point inputs are random, their roots are not certified simple",
+                       "solves are pinned to one thread (-j 1) except an explicit -j 4 group on well separated inputs: multi-threaded solves of MPSolve are timing dependent (see known/C02.json, mode=-m entry)",
                        "errors, timeouts and sanitizer reports of a solve are left to C03/C05 and counted as skipped",
                        "APPROXIMATED_IN_CLUSTER counts as 'reported approximated' in every clause (it does in MPS_ROOT_STATUS_IS_APPROXIMATED and in both stop conditions)"])
